@@ -42,6 +42,9 @@ func printExpr(e J) string {
 	case "str":
 		return `"` + e["v"].(string) + `"`
 	case "num":
+		if t, ok := e["lex"].(string); ok {
+			return t
+		}
 		return fmt.Sprint(e["v"])
 	case "portion":
 		if t, ok := e["txt"].(string); ok {
